@@ -380,6 +380,41 @@ func (c *KHarness) Define(api frontend.API) error {
 	return nil
 }
 
+// History harness: two hashes in one circuit over overlapping storage -- first the k-byte prefix of a buffer (whose backing array
+// has spare capacity, as slices handed around in Go usually have), then the whole n-byte buffer. Each call must hash exactly the
+// data it is given, whatever was hashed before.
+type KHistHarness struct {
+	In     []frontend.Variable
+	Out1   [256]frontend.Variable
+	Out    [256]frontend.Variable
+	prefix int
+	sha3   bool
+}
+
+func (c *KHistHarness) Define(api frontend.API) error {
+	for _, b := range c.In {
+		api.AssertIsBoolean(b)
+	}
+	buf := make([]frontend.Variable, len(c.In), len(c.In)+4096)
+	copy(buf, c.In)
+	hash := func(data []frontend.Variable) []frontend.Variable {
+		if c.sha3 {
+			return keccak.NewSHA3_256(api, len(data), data...)
+		}
+		return keccak.NewKeccak256(api, len(data), data...)
+	}
+	h1 := hash(buf[:8*c.prefix])
+	h2 := hash(buf)
+	if len(h1) != 256 || len(h2) != 256 {
+		return fmt.Errorf("keccak output has %d/%d bits", len(h1), len(h2))
+	}
+	for i := range h1 {
+		api.AssertIsEqual(h1[i], c.Out1[i])
+		api.AssertIsEqual(h2[i], c.Out[i])
+	}
+	return nil
+}
+
 type P2Harness struct{ A, B, Out frontend.Variable }
 
 func (c *P2Harness) Define(api frontend.API) error {
@@ -520,6 +555,11 @@ func circuitOf(j *job) frontend.Circuit {
 		return &KFHarness{}
 	case "keccak": // a = bytes, b = 1 for sha3
 		return &KHarness{In: make([]frontend.Variable, 8*a), sha3: b == 1}
+	case "keccak_hist": // a = bytes, b = prefix bytes hashed first (keccak-256); c = 1 for sha3 is encoded as a negative b
+		if b < 0 {
+			return &KHistHarness{In: make([]frontend.Variable, 8*a), prefix: -b, sha3: true}
+		}
+		return &KHistHarness{In: make([]frontend.Variable, 8*a), prefix: b}
 	case "keccakbits": // a = bits (not necessarily byte aligned)
 		return &KHarness{In: make([]frontend.Variable, a), sha3: b == 1}
 	case "poseidon2":
